@@ -338,7 +338,13 @@ class TokenParser(Parser):
             # if the 2nd group (capturing comments) is not None,
             # it means we have captured a non-quoted (real) comment string.
             if comment := match.group(2):
-                return "\n" * comment.count("\n")  # so we will return empty to remove the comment
+                # Remove the comment but keep its line breaks; a comment that is all that separates two tokens
+                # (uint8/**/a) stands for a space, like in C
+                text = match.string
+                separates = 0 < match.start() and match.end() < len(text) and not (
+                    text[match.start() - 1].isspace() or text[match.end()].isspace()
+                )
+                return "\n" * comment.count("\n") or (" " if separates else "")
             # otherwise, we will return the 1st group
             return match.group(1)  # captured quoted-string
 
